@@ -60,6 +60,7 @@ def run(chk):
         chk.extra["strict_edges"] = side["strict"]
         chk.extra["timed_edges"] = side["timed"]
         lean.check_theorems(chk, MODULE, THEOREMS)
+        ac.handler_loops_obligation(chk)
         res = ac.exploration(chk)
         predicted = {(a, b) for a, b in side["strict"]} | {(a, b) for a, b in side["timed"]}
         strict = {(a, b) for a, b in side["strict"]}
